@@ -249,7 +249,8 @@ class TU:
 FUNKINDS = ('FunctionDecl', 'CXXMethodDecl', 'CXXConstructorDecl', 'CXXDestructorDecl', 'CXXConversionDecl')
 
 class Lowerer:
-    def __init__(self, tu, stubs=(), limits=None, keep_records=(), opaque_records=(), ghost_size=None, srcroot='/repo'):
+    def __init__(self, tu, stubs=(), limits=None, keep_records=(), opaque_records=(), ghost_buffers=None, srcroot='/repo'):
+        self.ghost_buffers = ghost_buffers or {}   # variable name -> set of qualified function names in which it is abstracted to its size
         self.tu = tu
         self.stubs = set(stubs)            # qualified names (or C names) that must NOT be lowered even if a body exists
         self.limits = limits or {}
@@ -487,6 +488,8 @@ class Lowerer:
             if i in self.tu.globals:
                 return self._global(i)
             name = r['name']
+            if i in self._ghostbufs:
+                return 'OSMT_GS_PTR(%s, 0)' % self._ghostbufs[i]   # the bare pointer: only legal as an argument of a stub or of free()
             if name in self.limits: return self.limits[name]
             rt = r.get('type', {}).get('qualType', '')
             if i not in self._locals:
@@ -540,11 +543,39 @@ class Lowerer:
             return '(%s->%s)' % (b, name)
         return '(%s.%s)' % (b, name)
 
+    def _ghost_buf(self, n):
+        """name of the ghost-size buffer an expression denotes (a local pointer variable listed in ghost_buffers), else None"""
+        c = n
+        while c.get('kind') in ('ImplicitCastExpr', 'ParenExpr') : c = c['inner'][0]
+        if c.get('kind') == 'DeclRefExpr' and c['referencedDecl'].get('id') in self._ghostbufs:
+            return self._ghostbufs[c['referencedDecl']['id']]
+        return None
+
     def e_ArraySubscriptExpr(self, n):
+        g = self._ghost_buf(n['inner'][0])
+        if g:
+            # ghost-size mode: the buffer is represented by its size and liveness only; a read yields OSMT_GS_READ (nondeterministic)
+            return 'OSMT_GS_RD(%s, %s)' % (g, self.expr(n['inner'][1]))
         return '(%s[%s])' % (self.expr(n['inner'][0]), self.expr(n['inner'][1]))
+
+    def _ghost_alloc(self, g, init):
+        c = init
+        while c.get('kind') in ('ImplicitCastExpr', 'ParenExpr', 'CStyleCastExpr', 'CXXStaticCastExpr', 'CXXReinterpretCastExpr'): c = c['inner'][0]
+        if c.get('kind') == 'CallExpr':
+            _, ref = self.callee_decl(c['inner'][0]); args = c['inner'][1:]
+            if ref.get('name') == 'malloc' and len(args) == 1:
+                return 'OSMT_GS_MALLOC(%s, %s)' % (g, self.expr(args[0]))
+            if ref.get('name') == 'realloc' and len(args) == 2 and self._ghost_buf(args[0]) == g:
+                return 'OSMT_GS_REALLOC(%s, %s)' % (g, self.expr(args[1]))
+        raise Unsupported('ghost-size buffer %s is assigned from something other than malloc/realloc of itself at %s' % (g, self.where(init)))
 
     def e_UnaryOperator(self, n):
         op = n['opcode']; a = n['inner'][0]
+        if op == '&':
+            aa = a
+            while aa.get('kind') == 'ParenExpr': aa = aa['inner'][0]
+            if aa.get('kind') == 'ArraySubscriptExpr' and self._ghost_buf(aa['inner'][0]):
+                return 'OSMT_GS_PTR(%s, %s)' % (self._ghost_buf(aa['inner'][0]), self.expr(aa['inner'][1]))
         if op == '__extension__': return self.expr(a)
         if op == '*': return '(*%s)' % self.expr(a)
         if op == '&': return self.addr(self.expr(a))
@@ -559,8 +590,13 @@ class Lowerer:
         op = n['opcode']; a, b = n['inner']
         if op == ',': return '(%s, %s)' % (self.expr(a), self.expr(b))
         if op == '=':
-            if self.is_record_type(n['type']) is False or True:
-                return '(%s = %s)' % (self.expr(a), self.expr(b))
+            aa = a
+            while aa.get('kind') == 'ParenExpr': aa = aa['inner'][0]
+            if aa.get('kind') == 'ArraySubscriptExpr' and self._ghost_buf(aa['inner'][0]):
+                return 'OSMT_GS_WR(%s, %s, %s)' % (self._ghost_buf(aa['inner'][0]), self.expr(aa['inner'][1]), self.expr(b))
+            if self._ghost_buf(aa):
+                return self._ghost_alloc(self._ghost_buf(aa), b)
+            return '(%s = %s)' % (self.expr(a), self.expr(b))
         ea, eb = self.expr(a), self.expr(b)
         if op in ('<', '>', '<=', '>=', '==', '!=', '&&', '||'):
             return '((t_bool)(%s %s %s))' % (ea, op, eb)
@@ -700,6 +736,8 @@ class Lowerer:
         i, ref = self.callee_decl(callee)
         if ref.get('name') in ('abort',):
             return 'OSMT_ABORT()'
+        if ref.get('name') == 'free' and len(args) == 1 and self._ghost_buf(args[0]):
+            return 'OSMT_GS_FREE(%s)' % self._ghost_buf(args[0])
         if ref.get('kind') == 'CXXMethodDecl' or (self.tu.byid.get(i, {}).get('kind') == 'CXXMethodDecl'):
             # static member function called without object
             return self._call(self.tu.byid.get(i, ref), None, args, n)
@@ -922,6 +960,17 @@ class Lowerer:
             raise Unsupported('static local variable %s' % d.get('name'))
         name = self._local(d)
         t = d['type']
+        if d.get('name') in self.ghost_buffers and self._curq in self.ghost_buffers[d['name']]:
+            if not self._strip_cv(t['qualType']).endswith('*'): raise Unsupported('ghost-size buffer %s is not a pointer' % name)
+            self._ghostbufs[d['id']] = name
+            self.meta.setdefault('ghost_buffers', []).append({'fn': self._curname, 'var': name, 'line': d.get('loc', {}).get('_line')})
+            init = None
+            for c in d.get('inner', []):
+                k = c.get('kind', '')
+                if not (k.endswith('Attr') or k.endswith('Type') or k.endswith('Decl')): init = c
+            out = '%sOSMT_GS_DECL(%s);\n' % (ind, name)
+            if init is not None: out += '%s%s;\n' % (ind, self._ghost_alloc(name, init))
+            return out
         ct = self.ctype(t)
         isref = self._strip_cv(t['qualType']).endswith('&')
         init = None
@@ -964,13 +1013,17 @@ class Lowerer:
 
     def _loopbody(self, body, ind, k):
         fn = self._curname
+        self._loopstack.append(k)
         out = ind + '{\n' + ind + '  OSMT_LOOPHEAD_%s_%d\n' % (fn, k)
         if body.get('kind') == 'CompoundStmt':
             for c in body.get('inner', []): out += self.stmt(c, ind + '  ')
         else:
             out += self.stmt(body, ind + '  ')
+        if any(l['fn'] == fn and l['ordinal'] == k and l.get('has_continue') for l in self.meta['loops']):
+            out += ind + '  __osmt_cont_%d: ;\n' % k
         out += ind + '  OSMT_LOOPTAIL_%s_%d\n' % (fn, k) + ind + '}\n'
         self._hooks.add('OSMT_LOOPHEAD_%s_%d' % (fn, k)); self._hooks.add('OSMT_LOOPTAIL_%s_%d' % (fn, k)); self._hooks.add('OSMT_LOOP_%s_%d' % (fn, k))
+        self._loopstack.pop()
         return out
 
     def s_WhileStmt(self, n, ind):
@@ -1033,7 +1086,10 @@ class Lowerer:
     def s_LabelStmt(self, n, ind):
         return ind + '%s:\n' % self._labels[n['declId']] + self.stmt(n['inner'][0], ind)
     def s_BreakStmt(self, n, ind): return ind + 'break;\n'
-    def s_ContinueStmt(self, n, ind): return ind + 'continue;\n'
+    def s_ContinueStmt(self, n, ind):
+        # `continue` == jump to the end of the loop body; written as a goto so that the loop-tail ghost hook is never skipped
+        if not self._loopstack: raise Unsupported('continue outside a loop')
+        return ind + 'goto __osmt_cont_%d;\n' % self._loopstack[-1]
 
     def s_SwitchStmt(self, n, ind):
         if n.get('hasInit') or n.get('hasVar'): raise Unsupported('switch with init')
@@ -1119,8 +1175,9 @@ class Lowerer:
     def _function(self, d):
         name = self.fn_cname[d['id']]
         self._curname = name
-        self._tmpn = 0; self._tmps = []; self._locals = {}; self._localnames = set(['self', '__ret'])
-        self._labels = {}; self._loopn = 0; self._hooks = set(); self._throws = False
+        self._tmpn = 0; self._tmps = []; self._locals = {}; self._localnames = set(['self', '__ret']); self._ghostbufs = {}
+        self._curq = self.tu.qname.get(d['id'])
+        self._labels = {}; self._loopn = 0; self._hooks = set(); self._throws = False; self._loopstack = []
         self._cur_field = None
         ret, ptypes = split_fn_type(d['type']['qualType'])
         kind = d['kind']
